@@ -24,8 +24,9 @@ pub trait LifeObj {
     fn out_len(&self) -> usize;
 }
 
-fn dirty(n: usize) -> Vec<u8> {
-    crate::rng::data(0xbadc0ffee ^ n as u64, n)
+/// result buffer pre-filled with garbage, at a misalignment that depends on its size
+fn dirty(n: usize) -> crate::rng::Aligned {
+    crate::rng::Aligned::dirty(0xbadc0ffee ^ n as u64, n)
 }
 
 pub struct MacN<T: Mac>(pub T);
@@ -38,7 +39,7 @@ impl<T: Mac> LifeObj for MacN<T> {
             let n = self.0.output_bytes();
             let mut b = dirty(n);
             self.0.raw_result(&mut b);
-            b
+            b.to_vec()
         } else {
             self.0.result().code().to_vec()
         }
@@ -46,7 +47,7 @@ impl<T: Mac> LifeObj for MacN<T> {
     fn result_into(&mut self, size: usize) -> Vec<u8> {
         let mut b = dirty(size);
         self.0.raw_result(&mut b);
-        b
+        b.to_vec()
     }
     fn reset(&mut self) {
         Mac::reset(&mut self.0)
@@ -69,7 +70,7 @@ impl<T: Mac + Clone + 'static> LifeObj for MacC<T> {
             let n = self.0.output_bytes();
             let mut b = dirty(n);
             self.0.raw_result(&mut b);
-            b
+            b.to_vec()
         } else {
             self.0.result().code().to_vec()
         }
@@ -77,7 +78,7 @@ impl<T: Mac + Clone + 'static> LifeObj for MacC<T> {
     fn result_into(&mut self, size: usize) -> Vec<u8> {
         let mut b = dirty(size);
         self.0.raw_result(&mut b);
-        b
+        b.to_vec()
     }
     fn reset(&mut self) {
         Mac::reset(&mut self.0)
@@ -102,7 +103,7 @@ macro_rules! blake_mac {
                     let n = Mac::output_bytes(&self.0);
                     let mut b = dirty(n);
                     Mac::raw_result(&mut self.0, &mut b);
-                    b
+                    b.to_vec()
                 } else {
                     Mac::result(&mut self.0).code().to_vec()
                 }
@@ -110,7 +111,7 @@ macro_rules! blake_mac {
             fn result_into(&mut self, size: usize) -> Vec<u8> {
                 let mut b = dirty(size);
                 Mac::raw_result(&mut self.0, &mut b);
-                b
+                b.to_vec()
             }
             fn reset(&mut self) {
                 Mac::reset(&mut self.0)
@@ -147,7 +148,7 @@ impl<T: Digest + Clone + 'static> LifeObj for DigC<T> {
         if raw {
             let mut b = dirty(n);
             Digest::result(&mut self.0, &mut b);
-            b
+            b.to_vec()
         } else {
             // the trait's hexadecimal convenience result, decoded again
             let hex = Digest::result_str(&mut self.0);
@@ -173,7 +174,7 @@ impl<T: Digest + Clone + 'static> LifeObj for DigC<T> {
     fn result_into(&mut self, size: usize) -> Vec<u8> {
         let mut b = dirty(size);
         Digest::result(&mut self.0, &mut b);
-        b
+        b.to_vec()
     }
     fn reset(&mut self) {
         Digest::reset(&mut self.0)
@@ -303,5 +304,5 @@ pub fn blake_static_oneshot(s: bool, outlen: usize, input: &[u8], key: &[u8]) ->
     } else {
         blake2b::Blake2b::blake2b(&mut out, input, key);
     }
-    out
+    out.to_vec()
 }
